@@ -75,7 +75,7 @@ class Tree:
         method = r.choice(METHODS)
         lvl = r.choice([1, 2, 2, 3])
         mt = r.choice([1000000000, 1234567890, 86400 * 365, 2 ** 31 - 2, 0])
-        perms = r.choice([0o100644, 0o100600, 0o100755, 0o100444, None])
+        perms = r.choice([0o100644, 0o100600, 0o100755, 0o100444, None, 0o100000, 0o100777, 0o100400])
         try:
             payload = compress(method, data, r)
         except Exception:
@@ -112,7 +112,7 @@ class Tree:
         r = self.rng
         nm = self.name().replace(b" ", b"_")
         path = d + nm
-        perms = r.choice([0o40755, 0o40700, 0o40555, 0o40500, 0o40775, None])
+        perms = r.choice([0o40755, 0o40700, 0o40555, 0o40500, 0o40775, None, 0o41777, 0o42775, 0o44755, 0o47777, 0o41700])
         mt = r.choice([1000000000, 946684800, 0])
         self.members.append(arc.unix_dir(path, level=r.choice([1, 2, 3]), perms=perms, time=mt))
         it = {"p": path, "ty": "dir", "mtime": mt, "mode": (perms & 0o7777) if perms is not None else 0o755, "hp": perms is not None}
